@@ -28,6 +28,7 @@ CONSTANTS
   WPropose = 20
   WCommit = 30
   WApp = 15
+  LateBias = 3
   WStore = 30
 INVARIANT EmitAtDepth
 CHECK_DEADLOCK FALSE
